@@ -666,6 +666,204 @@ theorem foldl_load_spec (chr : Str) : ∀ (feats : List RefFeature) (st : Featur
             simp [dictGet]
           · exact i5 g hg hs
 
+/-! ### loading the reference records of all feature types (the repaired `__init__`) -/
+
+/-- the `exon_id` value a record of any type contributes to `used_ids` -/
+def recId (r : RefRecord) : Option Str := refId r.feat
+
+def recKey (chr : Str) (r : RefRecord) : ExonKey := refKey chr r.feat
+
+theorem loadRecord_eq (chr : Str) (st : FeatureIdStorage) (r : RefRecord) :
+    FeatureIdStorage.loadRecord chr st r =
+      match recId r with
+      | none => st
+      | some id =>
+        if r.ofType then { st with dict := (recKey chr r, id) :: st.dict, used := id :: st.used }
+        else { st with used := id :: st.used } := by
+  unfold FeatureIdStorage.loadRecord recId refId recKey refKey
+  cases h : r.feat.idAttr with
+  | none => rfl
+  | some l => cases l <;> rfl
+
+/-- a record of the requested type is loaded exactly as `FeatureIdStorage.load` loads its feature -/
+theorem loadRecord_ofType (chr : Str) (st : FeatureIdStorage) (f : RefFeature) :
+    FeatureIdStorage.loadRecord chr st ⟨true, f⟩ = FeatureIdStorage.load chr st f := by
+  unfold FeatureIdStorage.loadRecord FeatureIdStorage.load
+  cases h : f.idAttr with
+  | none => rfl
+  | some l => cases l <;> rfl
+
+/-- `FeatureIdStorage.init` is `initRecords` on a reference all of whose records are of the requested type -/
+theorem initRecords_of_features (dist : IdDistributor) (genedb : Option (List RefFeature)) (chr : Str) :
+    FeatureIdStorage.initRecords dist (genedb.map (List.map (RefRecord.mk true))) chr =
+      FeatureIdStorage.init dist genedb chr := by
+  cases genedb with
+  | none => rfl
+  | some feats =>
+    simp only [Option.map_some, FeatureIdStorage.initRecords, FeatureIdStorage.init]
+    split
+    · rfl
+    · rw [List.foldl_map]
+      have e : (fun (st : FeatureIdStorage) (f : RefFeature) => FeatureIdStorage.loadRecord chr st ⟨true, f⟩) =
+          FeatureIdStorage.load chr := by
+        funext st f
+        exact loadRecord_ofType chr st f
+      rw [e]
+
+theorem foldl_loadRecord_spec (chr : Str) : ∀ (recs : List RefRecord) (st : FeatureIdStorage),
+    let r := recs.foldl (FeatureIdStorage.loadRecord chr) st
+    r.dist = st.dist ∧
+    (∀ k id, dictGet k r.dict = some id →
+      dictGet k st.dict = some id ∨ ∃ f ∈ recs, f.ofType = true ∧ recId f = some id ∧ k = recKey chr f) ∧
+    (∀ id, id ∈ r.used ↔ id ∈ st.used ∨ ∃ f ∈ recs, recId f = some id) ∧
+    (∀ k, (dictGet k st.dict).isSome → (dictGet k r.dict).isSome) ∧
+    (∀ f ∈ recs, f.ofType = true → (recId f).isSome → (dictGet (recKey chr f) r.dict).isSome)
+  | [], st => by simp
+  | f :: fs, st => by
+      intro r
+      have ih := foldl_loadRecord_spec chr fs (FeatureIdStorage.loadRecord chr st f)
+      simp only [] at ih
+      obtain ⟨i1, i2, i3, i4, i5⟩ := ih
+      have hr : r = fs.foldl (FeatureIdStorage.loadRecord chr) (FeatureIdStorage.loadRecord chr st f) := rfl
+      rw [hr]
+      rw [loadRecord_eq] at i1 i2 i3 i4 i5 ⊢
+      -- the `used_ids` part does not depend on the record type
+      have used_some : ∀ fid, recId f = some fid → ∀ id,
+          (id ∈ fid :: st.used ∨ ∃ g ∈ fs, recId g = some id) ↔ (id ∈ st.used ∨ ∃ g ∈ f :: fs, recId g = some id) := by
+        intro fid hf id
+        constructor
+        · rintro (x | ⟨g, g1, g2⟩)
+          · simp only [List.mem_cons] at x
+            rcases x with rfl | x
+            · exact Or.inr ⟨f, by simp, hf⟩
+            · exact Or.inl x
+          · exact Or.inr ⟨g, by simp [g1], g2⟩
+        · rintro (x | ⟨g, g1, g2⟩)
+          · exact Or.inl (by simp [x])
+          · simp only [List.mem_cons] at g1
+            rcases g1 with rfl | g1
+            · rw [hf] at g2; simp only [Option.some.injEq] at g2
+              exact Or.inl (by simp [g2])
+            · exact Or.inr ⟨g, g1, g2⟩
+      cases hf : recId f with
+      | none =>
+        simp only [hf] at i1 i2 i3 i4 i5 ⊢
+        refine ⟨i1, ?_, ?_, i4, ?_⟩
+        · intro k id h
+          rcases i2 k id h with x | ⟨g, g1, g2, g3, g4⟩
+          · exact Or.inl x
+          · exact Or.inr ⟨g, by simp [g1], g2, g3, g4⟩
+        · intro id
+          rw [i3 id]
+          constructor
+          · rintro (x | ⟨g, g1, g2⟩)
+            · exact Or.inl x
+            · exact Or.inr ⟨g, by simp [g1], g2⟩
+          · rintro (x | ⟨g, g1, g2⟩)
+            · exact Or.inl x
+            · simp only [List.mem_cons] at g1
+              rcases g1 with rfl | g1
+              · rw [hf] at g2; cases g2
+              · exact Or.inr ⟨g, g1, g2⟩
+        · intro g hg ht hs
+          simp only [List.mem_cons] at hg
+          rcases hg with rfl | hg
+          · rw [hf] at hs; cases hs
+          · exact i5 g hg ht hs
+      | some fid =>
+        cases hty : f.ofType with
+        | true =>
+          simp only [hf, hty, if_true] at i1 i2 i3 i4 i5 ⊢
+          refine ⟨i1, ?_, ?_, ?_, ?_⟩
+          · intro k id h
+            rcases i2 k id h with x | ⟨g, g1, g2, g3, g4⟩
+            · simp only [dictGet] at x
+              split at x
+              · next e =>
+                simp only [Option.some.injEq] at x
+                exact Or.inr ⟨f, by simp, hty, by rw [hf, x], e⟩
+              · exact Or.inl x
+            · exact Or.inr ⟨g, by simp [g1], g2, g3, g4⟩
+          · intro id
+            rw [i3 id]
+            exact used_some fid hf id
+          · intro k hk
+            apply i4
+            simp only [dictGet]
+            split
+            · rfl
+            · exact hk
+          · intro g hg ht hs
+            simp only [List.mem_cons] at hg
+            rcases hg with rfl | hg
+            · apply i4
+              simp [dictGet]
+            · exact i5 g hg ht hs
+        | false =>
+          simp only [hf, hty, Bool.false_eq_true, if_false] at i1 i2 i3 i4 i5 ⊢
+          refine ⟨i1, ?_, ?_, i4, ?_⟩
+          · intro k id h
+            rcases i2 k id h with x | ⟨g, g1, g2, g3, g4⟩
+            · exact Or.inl x
+            · exact Or.inr ⟨g, by simp [g1], g2, g3, g4⟩
+          · intro id
+            rw [i3 id]
+            exact used_some fid hf id
+          · intro g hg ht hs
+            simp only [List.mem_cons] at hg
+            rcases hg with rfl | hg
+            · rw [hty] at ht; cases ht
+            · exact i5 g hg ht hs
+
+/-- where a binding of the table after one call comes from: it was there before, or it is a fresh `chr.N`
+    (with the key's own chromosome) that is not in `used_ids` -/
+theorem getId_origin {st st' : FeatureIdStorage} {k : ExonKey} {id : Str} (h : st.getId k = some (id, st')) :
+    ∀ k' id', dictGet k' st'.dict = some id' →
+      dictGet k' st.dict = some id' ∨ (id' ∉ st.used ∧ ∃ n, id' = exonIdStr k'.1 n) := by
+  unfold FeatureIdStorage.getId at h
+  cases hl : dictGet k st.dict with
+  | some id0 =>
+    simp only [hl, Option.some.injEq, Prod.mk.injEq] at h
+    obtain ⟨rfl, rfl⟩ := h
+    exact fun _ _ x => Or.inl x
+  | none =>
+    simp only [hl] at h
+    cases hf : freshLoop k.1 st.used (st.used.length + 1) st.dist with
+    | none => simp [hf] at h
+    | some r =>
+      obtain ⟨fid, d1⟩ := r
+      simp only [hf, Option.some.injEq, Prod.mk.injEq] at h
+      obtain ⟨rfl, rfl⟩ := h
+      obtain ⟨_, _, b3, b4⟩ := freshLoop_spec _ _ _ _ _ _ hf
+      intro k' id' hk'
+      simp only [dictGet] at hk'
+      split at hk'
+      · next e =>
+        simp only [Option.some.injEq] at hk'
+        subst e; subst hk'
+        exact Or.inr ⟨b4, d1.value, b3⟩
+      · exact Or.inl hk'
+
+/-- the same over a whole call history, relative to the state the history started from -/
+theorem getIds_origin : ∀ (ks : List ExonKey) (st st' : FeatureIdStorage) (ids : List Str),
+    st.getIds ks = some (ids, st') →
+    ∀ k' id', dictGet k' st'.dict = some id' →
+      dictGet k' st.dict = some id' ∨ (id' ∉ st.used ∧ ∃ n, id' = exonIdStr k'.1 n)
+  | [], st, st', ids, h => by
+      simp only [FeatureIdStorage.getIds, Option.some.injEq, Prod.mk.injEq] at h
+      obtain ⟨rfl, rfl⟩ := h
+      exact fun _ _ x => Or.inl x
+  | k :: ks, st, st', ids, h => by
+      obtain ⟨id, st1, h1⟩ := getId_total st k
+      obtain ⟨ids2, st2, h2⟩ := getIds_total ks st1
+      simp only [FeatureIdStorage.getIds, h1, h2, Option.some.injEq, Prod.mk.injEq] at h
+      obtain ⟨rfl, rfl⟩ := h
+      obtain ⟨_, _, a3, _⟩ := getId_spec h1
+      intro k' id' hk'
+      rcases getIds_origin ks st1 st2 ids2 h2 k' id' hk' with x | ⟨y, z⟩
+      · exact getId_origin h1 k' id' x
+      · exact Or.inr ⟨a3 ▸ y, z⟩
+
 theorem tnums_pairwise {ms : List NovelModel} (h : (allNums ms).Pairwise (· < ·)) :
     ms.Pairwise (fun a b => a.tnum ≠ b.tnum) := by
   induction ms with
